@@ -15,10 +15,23 @@
 //! 4e-12 (below 1e-12 the code reports "parallel" by design).
 //! Plus (THIN FEATURE, ANY MAGNITUDE): a slot 0.002 .. 0.03 wide crossed transversally by lines whose direction vector has
 //! magnitude 1e-3 .. 2000; the two wall crossings (>= 1e-6 apart in parameter) must both be reported.
+//! Plus (wave 5, ORIENTATION-SIGN ORACLE; every line is given as (m, d, k): it passes through m, the ray origin m - k*d is exact):
+//!  F1 SIZES / LAYOUTS: 1..4, 41, 63..65, 100, 255..257, 1000, 1024, 4097, 5000 edges (zig-zag, asymmetric zig-zag, comb,
+//!     rectangular spiral both ways, round spiral and closed star ring with inexact coordinates, nearly straight run, closed
+//!     rectangles); targeted lines through every edge (<= 300 edges) or the first / last 10 edges, the edges around 16, 64,
+//!     256, 1024, 4096 and every n/37-th: edge fractions 0.375, 0 (the vertex), 2^-18, 2^-34 inside each end, and just
+//!     beyond / exactly at the free ends; 6 directions (incl. (49, 1): inexact reciprocal); origins 0, 4, -8, 2^20, -2^36,
+//!     12345678901 steps away; sweeps that cross every edge in one query (up to 5000 hits), signed-zero components.
+//!  F2 MAGNITUDES: 11 shapes (1, 2, 9..32 edges) x offsets (0,0), (1e3,-3e3), (1e5+.5, 2.5e5), (-1e8, 1e8), (1.2e8, -9.9e8) x
+//!     scales 1, 2^-10, 2^-20, 2^-27 (pairs whose image is exact) x |dir| factors scale*2^-10 .. 2^10: targeted lines as in F1
+//!     and the generic lines of the base shape; a line is judged when no design threshold is in play (see orient_oracle).
+//!  F5 / F6: zero-length edges; curves as Curve2 builds them (force_closed: crossing on the closing edge; closed within the
+//!     tolerance; duplicates removed; cloned / translated / reversed), oracle on the vertex list the curve reports; every
+//!     query asked twice.
 use super::{close, Report};
 use crate::common::Intersection;
 use crate::geom2::polyline2::{farthest_point_direction_distance, max_intersection, polyline_intersections, ray_intersect_with_edge, spanning_ray};
-use crate::geom2::{Curve2, Point2, Ray2, SurfacePoint2, Vector2};
+use crate::geom2::{Curve2, Line2, Point2, Ray2, SurfacePoint2, Vector2};
 use parry2d_f64::shape::Polyline;
 
 const DEDUP: f64 = 1e-8;
@@ -496,8 +509,467 @@ fn thin_feature_scaled_lines(r: &mut Report) {
     } } }
 }
 
+// ================================================================ wave 5: orientation-sign oracle, any size / magnitude
+// The families below give every line as (m, d, k): the line passes through the reference point m with direction d and the
+// ray handed to the code has origin m - k*d, computed WITHOUT rounding (checked by an error-free transformation), so the
+// line is known exactly although the origin may lie 2^36 steps away or the coordinates may be 1e8 + a fraction.  Which edges
+// the line crosses is decided per edge from the signs of d x (q - m) at the two end points (no determinant formula, no
+// parametric solve); the crossing parameter follows from the ratio of the two orientations.
+
+/// a - b when it is exactly representable
+fn exact_sub(a: f64, b: f64) -> Option<f64> {
+    let nb = -b;
+    let s = a + nb;
+    let ap = s - nb;
+    let bp = s - ap;
+    let err = (a - ap) + (nb - bp);
+    if err == 0.0 && s.is_finite() { Some(s) } else { None }
+}
+
+/// a * b when it is exactly representable
+fn exact_mul(a: f64, b: f64) -> Option<f64> {
+    let pr = a * b;
+    if pr.is_finite() && a.mul_add(b, -pr) == 0.0 && (pr != 0.0 || a == 0.0 || b == 0.0) { Some(pr) } else { None }
+}
+/// true when every operation of the per-edge formula (differences, the four products, the two determinants) is exact for
+/// the edge a-b and the ray (o, d): a vertex EXACTLY on the line then gives the edge parameter exactly 0 or 1.  Lines through
+/// a vertex are judged only under this condition (otherwise the outcome is a matter of rounding, not of the statement).
+fn formula_exact(o: &Point2, d: &Vector2, a: &Point2, b: &Point2) -> bool {
+    let f = || -> Option<()> {
+        let (ex, ey) = (exact_sub(b.x, a.x)?, exact_sub(b.y, a.y)?);
+        let (dx, dy) = (exact_sub(a.x, o.x)?, exact_sub(a.y, o.y)?);
+        exact_sub(exact_mul(dy, d.x)?, exact_mul(dx, d.y)?)?;
+        exact_sub(exact_mul(dy, ex)?, exact_mul(dx, ey)?)?;
+        exact_sub(exact_mul(ex, d.y)?, exact_mul(ey, d.x)?)?;
+        Some(())
+    };
+    f().is_some()
+}
+
+struct Orc {
+    /// distinct crossings, ascending: parameter RELATIVE to m (the ray parameter is k + t_rel) and the edges that contain the
+    /// crossing point (two for a crossing exactly at a shared vertex)
+    cross: Vec<(f64, Vec<usize>)>,
+    /// smallest sine of the angle between the line and a crossed edge
+    sin_min: f64,
+    /// smallest |edge| * sine over the crossed edges (the determinant the code would see for a UNIT direction)
+    unit_det_min: f64,
+    /// true when no vertex lies exactly on the line and every crossing is at least 1e-9 (edge parameter) inside its edge
+    clear: bool,
+    /// tolerance for comparing a reported parameter with k + t_rel
+    tol: f64,
+}
+
+/// Exhaustive per-edge computation by orientation signs.  None: the line is outside the judged input space (a vertex closer
+/// to the line than the rounding of the code can resolve, a crossed edge nearly parallel (sine < 1e-4 or determinant of the
+/// two direction vectors < 4e-12: "parallel" by design below 1e-12), an edge collinear with the line, two distinct crossings
+/// closer than 1e-6 in parameter (the 1e-8 merge is absolute by design)).
+/// `ties`: a vertex EXACTLY on the line is accepted (exact-arithmetic families only); `far_ties`: also when the origin is
+/// far away, for a free end of an open polyline (a single incident edge: no merge involved).
+fn orient_oracle(v: &[Point2], m: &Point2, d: &Vector2, o: &Point2, k: f64, ties: bool, far_ties: bool) -> Option<Orc> {
+    let n = v.len();
+    let d2 = d.x * d.x + d.y * d.y;
+    let dn = d2.sqrt();
+    if !(dn > 0.0) || !dn.is_finite() { return None; }
+    let open = v[0] != v[n - 1];
+    let s: Vec<f64> = v.iter().map(|q| d.x * (q.y - m.y) - d.y * (q.x - m.x)).collect();
+    let mut raw: Vec<(f64, usize)> = vec![];
+    let (mut sin_min, mut unit_det_min, mut clear) = (1.0f64, f64::MAX, true);
+    for i in 0..n - 1 {
+        let (a, b) = (&v[i], &v[i + 1]);
+        if a == b { continue; } // zero-length edge: determinant 0, never reported; its end points belong to the neighbours
+        let (sa, sb) = (s[i], s[i + 1]);
+        let det = (sa - sb).abs();
+        let far = (a.x - o.x).abs() + (a.y - o.y).abs() + (b.x - o.x).abs() + (b.y - o.y).abs();
+        let tol_s = det * 9.1e-13 + 1e-14 * dn * far;
+        let el = ((b.x - a.x).powi(2) + (b.y - a.y).powi(2)).sqrt();
+        if sa == 0.0 && sb == 0.0 { return None; }
+        if sa == 0.0 || sb == 0.0 {
+            let (j, q, other) = if sa == 0.0 { (i, a, sb) } else { (i + 1, b, sa) };
+            if other.abs() < tol_s || det < 4e-12 || det < 1e-4 * dn * el { return None; }
+            let t = ((q.x - m.x) * d.x + (q.y - m.y) * d.y) / d2;
+            let sine = det / (dn * el);
+            let free_end = open && (j == 0 || j == n - 1);
+            let near = (k.abs() + t.abs()) * 1e-15 <= 1e-9 * sine;
+            if !((ties && near) || (far_ties && free_end)) || !formula_exact(o, d, a, b) { return None; }
+            sin_min = sin_min.min(sine); unit_det_min = unit_det_min.min(det / dn); clear = false;
+            raw.push((t, i));
+            continue;
+        }
+        if sa.abs() < tol_s || sb.abs() < tol_s { return None; }
+        if (sa > 0.0) != (sb > 0.0) {
+            if det < 4e-12 || det < 1e-4 * dn * el { return None; }
+            let f = sa / (sa - sb);
+            // the crossing point relative to m (differences of nearby coordinates are exact: no rounding at the magnitude of the coordinates)
+            let (pa, pb) = ((a.x - m.x) * d.x + (a.y - m.y) * d.y, (b.x - m.x) * d.x + (b.y - m.y) * d.y);
+            raw.push(((pa + f * (pb - pa)) / d2, i));
+            sin_min = sin_min.min(det / (dn * el)); unit_det_min = unit_det_min.min(det / dn);
+            if f < 1e-9 || f > 1.0 - 1e-9 { clear = false; }
+        } else if sa.abs().min(sb.abs()) < 1e-9 * det { clear = false; }
+    }
+    raw.sort_by(|x, y| x.0.partial_cmp(&y.0).unwrap().then(x.1.cmp(&y.1)));
+    let tmax = raw.iter().fold(0.0f64, |acc, x| acc.max(x.0.abs()));
+    let tol = 1e-9 * (1.0 + tmax) + 4e-15 * k.abs() / sin_min;
+    let mut cross: Vec<(f64, Vec<usize>)> = vec![];
+    for (t, i) in raw {
+        match cross.last_mut() {
+            Some(l) if l.0 == t => l.1.push(i),
+            Some(l) if t - l.0 < 1e-6 + 4.0 * tol => return None,
+            _ => cross.push((t, vec![i])),
+        }
+    }
+    Some(Orc { cross, sin_min, unit_det_min, clear, tol })
+}
+
+/// index of the expected crossing whose parameter is within tol of t
+fn find_cross(exp: &[f64], t: f64, tol: f64) -> Option<usize> {
+    let j = exp.partition_point(|e| *e < t - tol);
+    if j < exp.len() && (exp[j] - t).abs() <= tol { Some(j) } else { None }
+}
+
+/// All clauses of the statement for the line through m with direction d, origin m - k*d.  Returns whether the line was judged.
+fn check_ref_line(r: &mut Report, fam: &str, v: &[Point2], line: &Polyline, curve: Option<&Curve2>, m: &Point2, d: &Vector2, k: f64, ties: bool, far_ties: bool) -> bool {
+    let (ox, oy) = match (exact_sub(m.x, k * d.x), exact_sub(m.y, k * d.y)) { (Some(x), Some(y)) => (x, y), _ => return false };
+    let o = p(ox, oy);
+    let orc = match orient_oracle(v, m, d, &o, k, ties, far_ties) { Some(x) => x, None => return false };
+    r.case();
+    let n = v.len();
+    let ray = Ray2::new(o, *d);
+    let dn = (d.x * d.x + d.y * d.y).sqrt();
+    let tol = orc.tol;
+    let exp: Vec<f64> = orc.cross.iter().map(|c| k + c.0).collect();
+    let short = |pts: &[Point2]| -> String {
+        if pts.len() <= 48 { format!("{:?}", pts.iter().map(|q| (q.x, q.y)).collect::<Vec<_>>()) }
+        else { format!("[{} vertices: {:?} .. {:?}]", pts.len(), pts[..3].iter().map(|q| (q.x, q.y)).collect::<Vec<_>>(), pts[pts.len() - 3..].iter().map(|q| (q.x, q.y)).collect::<Vec<_>>()) }
+    };
+    let cut = |l: &[(f64, usize)]| -> String { if l.len() <= 12 { format!("{:?}", l) } else { format!("[{} entries: {:?} .. {:?}]", l.len(), &l[..4], &l[l.len() - 4..]) } };
+    let expd: Vec<(f64, usize)> = orc.cross.iter().map(|c| (k + c.0, c.1[0])).collect();
+    let desc = || format!("{} {} x ray origin ({:?}, {:?}) dir ({:?}, {:?}) [the line passes through ({:?}, {:?}) at parameter {:?}]; crossings by orientation signs (parameter, edge) {}",
+        fam, short(v), o.x, o.y, d.x, d.y, m.x, m.y, k, cut(&expd));
+
+    // per edge
+    let mut edge_exp: Vec<Option<f64>> = vec![None; n - 1];
+    for (c, e) in orc.cross.iter().zip(exp.iter()) { for i in c.1.iter() { edge_exp[*i] = Some(*e); } }
+    for i in 0..n - 1 {
+        let a = ray_intersect_with_edge(line, &ray, i);
+        let ok = match (a, edge_exp[i]) { (Some(x), Some(y)) => (x - y).abs() <= tol, (None, None) => true, _ => false };
+        r.check(ok, "per edge (orientation signs): an edge is reported exactly when its end points lie on opposite sides of the line or one of them on it, at the parameter of the crossing point", || format!("{} edge {}: got {:?}, expected {:?}", desc(), i, a, edge_exp[i]));
+    }
+
+    // the search, asked twice (no hidden state) and through the curve
+    let first = polyline_intersections(line, &ray);
+    let mut sources: Vec<(&str, Vec<(f64, usize)>)> = vec![];
+    if let Some(c) = curve { sources.push(("Curve2::ray_intersections", c.ray_intersections(&ray))); }
+    sources.push(("polyline_intersections (same query repeated)", polyline_intersections(line, &ray)));
+    sources.insert(0, ("polyline_intersections", first));
+    for (src, got) in sources.iter() {
+        let d2 = || format!("{}: {} returned {}", desc(), src, cut(got));
+        let sound = got.iter().all(|(t, i)| *i + 1 < n && t.is_finite() && match find_cross(&exp, *t, tol) { Some(j) => orc.cross[j].1.contains(i), None => false });
+        r.check(sound, "every reported parameter gives a point on the named edge", d2);
+        let gt: Vec<f64> = { let mut g: Vec<f64> = got.iter().map(|x| x.0).collect(); g.sort_by(|a, b| a.partial_cmp(b).unwrap()); g };
+        r.check(exp.iter().all(|e| find_cross(&gt, *e, tol).is_some()), "no per-edge intersection is missed", d2);
+        r.check(got.len() == exp.len() && got.iter().zip(exp.iter()).all(|((t, _), e)| (t - e).abs() <= tol), "reported parameters equal the distinct per-edge parameters", d2);
+        r.check(got.windows(2).all(|w| w[1].0 - w[0].0 >= DEDUP), "list ascending without duplicates (1e-8)", d2);
+    }
+
+    // spanning ray
+    let at_rel = |t: f64| p(m.x + d.x * t, m.y + d.y * t);
+    let ptol = dn * tol + 4e-15 * (o.x.abs() + o.y.abs() + m.x.abs() + m.y.abs() + k.abs() * dn);
+    let mut spans = vec![("spanning_ray", spanning_ray(line, &ray))];
+    if let Some(c) = curve { spans.push(("Curve2::try_create_spanning_ray", c.try_create_spanning_ray(&ray))); }
+    for (src, sr) in spans.iter() {
+        let d3 = || format!("{}: {} returned {:?}", desc(), src, sr.as_ref().map(|s| (s.ray().origin.x, s.ray().origin.y, s.ray().dir.x, s.ray().dir.y)));
+        r.check(sr.is_some() == (exp.len() == 2), "spanning ray produced exactly when there are two crossings", d3);
+        if let (Some(s), 2) = (sr, exp.len()) {
+            let sray = s.ray();
+            let (a, b) = (at_rel(orc.cross[0].0), at_rel(orc.cross[1].0));
+            let end = p(sray.origin.x + sray.dir.x, sray.origin.y + sray.dir.y);
+            r.check((sray.origin.x - a.x).abs() <= ptol && (sray.origin.y - a.y).abs() <= ptol, "spanning ray starts on the curve at the first crossing", d3);
+            r.check((end.x - b.x).abs() <= ptol && (end.y - b.y).abs() <= ptol, "spanning ray ends on the curve at the second crossing", d3);
+            let cross = sray.dir.x * d.y - sray.dir.y * d.x;
+            let dot = sray.dir.x * d.x + sray.dir.y * d.y;
+            let sl = (sray.dir.x.powi(2) + sray.dir.y.powi(2)).sqrt();
+            // (a span shorter than the resolution of the coordinates has no direction to speak of)
+            if (exp[1] - exp[0]) * dn >= 1e3 * ptol {
+                let rel = 1e-9 + 8.0 * ptol / sl;
+                r.check(cross.abs() <= rel * sl * dn && dot > 0.0, "spanning ray keeps the direction of the query line", d3);
+            }
+            // the same span seen through the Line2 view of the spanning ray
+            let (lo, ld, l0, l1) = (Line2::origin(s), Line2::dir(s), Line2::at(s, 0.0), Line2::at(s, 1.0));
+            r.check(lo == sray.origin && ld == sray.dir && l0 == sray.origin && (l1.x - b.x).abs() <= ptol && (l1.y - b.y).abs() <= ptol,
+                "spanning ray seen as a Line2 (origin, dir, at(0), at(1)) starts and ends at the same two crossings", d3);
+        }
+    }
+
+    // largest intersection
+    let mi = max_intersection(line, &ray);
+    r.check(match (mi, exp.last()) { (Some(a), Some(b)) => (a - b).abs() <= tol, (None, None) => true, _ => false }, "max_intersection == largest per-edge parameter", || format!("{}: got {:?}", desc(), mi));
+
+    // farthest projected vertex
+    let (mut far, mut scale) = (f64::NEG_INFINITY, 0.0f64);
+    for q in v { let pr = ((q.x - o.x) * d.x + (q.y - o.y) * d.y) / dn; far = far.max(pr); scale = scale.max((q.x - o.x).abs() + (q.y - o.y).abs()); }
+    let got = farthest_point_direction_distance(line, &ray);
+    r.check((got - far).abs() <= 1e-9 * scale, "farthest_point_direction_distance == max over ALL vertices of the projection on the unit direction", || format!("{}: got {:?}, expected {:?}", desc(), got, far));
+
+    // surface point: the same line with a unit normal; distances = parameter * |d|.  Only where the rounding of the
+    // normalisation cannot change the answer (no vertex on or within 1e-9 of the line, origin close), and where the design
+    // thresholds (unit direction now) are respected: determinants >= 4e-12, distinct distances >= 1e-6 apart
+    if let Some(c) = curve {
+        let dist: Vec<f64> = exp.iter().map(|t| t * dn).collect();
+        let dtol = tol * dn + 1e-9 * (k.abs() * dn);
+        let gaps_ok = dist.windows(2).all(|w| w[1] - w[0] >= 1e-6 + 4.0 * dtol);
+        if orc.clear && k.abs() <= 1024.0 && orc.unit_det_min >= 4e-12 && gaps_ok {
+            let sp = SurfacePoint2::new_normalize(o, *d);
+            let got: Vec<f64> = c.intersection(&sp);
+            r.check(got.len() == dist.len() && got.iter().zip(dist.iter()).all(|(a, b)| (a - b).abs() <= dtol),
+                "surface-point normal-line intersection == exhaustive per-edge parameters (negative ones kept)",
+                || format!("{}: surface point at the origin with the unit normal along dir: got {:?}, expected {:?}", desc(), got, dist));
+        }
+    }
+    true
+}
+
+// ---------------------------------------------------------------- F1: sizes and layouts
+fn zigzag_asym(n_edges: usize) -> Vec<Point2> {
+    let steps = [1.0, 3.0, 0.5, 2.0];
+    let hs = [2.0, 5.0, 1.5];
+    let mut x = 0.0;
+    let mut v = vec![p(0.0, 0.0)];
+    for i in 1..=n_edges { x += steps[i % 4]; v.push(p(x, if i % 2 == 0 { 0.0 } else { hs[i % 3] })); }
+    v
+}
+fn spiral_edges(n_edges: usize, out_in: bool) -> Vec<Point2> {
+    let mut v = spiral(n_edges / 4 + 1, false);
+    v.truncate(n_edges + 1);
+    if out_in { v.reverse(); }
+    v
+}
+fn round_spiral(n_edges: usize) -> Vec<Point2> {
+    (0..=n_edges).map(|i| { let a = 0.1 * i as f64; let rad = 1.0 + 0.01 * i as f64; p(rad * a.cos(), rad * a.sin()) }).collect()
+}
+fn straight_run(n_edges: usize) -> Vec<Point2> {
+    (0..=n_edges).map(|i| p(i as f64, 0.0009765625 * (((i * 7) % 5) as f64 - 2.0))).collect()
+}
+fn star_ring(n_edges: usize) -> Vec<Point2> {
+    let mut v: Vec<Point2> = (0..n_edges).map(|i| { let a = 2.0 * std::f64::consts::PI * (i as f64) / (n_edges as f64); let rad = if i % 2 == 0 { 10.0 } else { 7.0 }; p(3.0 + rad * a.cos(), -2.0 + rad * a.sin()) }).collect();
+    v.push(v[0]);
+    v
+}
+/// (name, vertices, exact arithmetic family)
+fn sized_polylines() -> Vec<(&'static str, Vec<Point2>, bool)> {
+    let th = super::thorough();
+    let mut v: Vec<(&'static str, Vec<Point2>, bool)> = vec![];
+    for n in [1usize, 2, 3, 4, 41, 63, 64, 65, 100, 255, 256, 257, 1000, 1024, 4097, 5000] { v.push(("zig-zag", zigzag(n, 2.0, 1.0), true)); }
+    if th { for n in [127usize, 128, 129, 1023, 1025, 2048, 4095, 4096] { v.push(("zig-zag", zigzag(n, 2.0, 1.0), true)); } }
+    for n in [2usize, 65, 1000] { v.push(("asymmetric zig-zag", zigzag_asym(n), true)); }
+    for t in [16usize, 250, 1250] { v.push(("comb", comb(t), true)); }
+    for n in [64usize, 65, 257, 1000] { v.push(("rectangular spiral", spiral_edges(n, false), true)); }
+    v.push(("rectangular spiral inward", spiral_edges(65, true), true));
+    v.push(("rectangular spiral inward", spiral_edges(1001, true), true));
+    for n in [100usize, 1000, 5000] { v.push(("round spiral (inexact coordinates)", round_spiral(n), false)); }
+    for n in [65usize, 1000, 5000] { v.push(("nearly straight run", straight_run(n), true)); }
+    v.push(("closed rectangle", rect_closed(16, 16), true));
+    v.push(("closed rectangle", rect_closed(17, 16), true));
+    v.push(("closed rectangle", rect_closed(300, 200), true));
+    v.push(("closed rectangle", rect_closed(1250, 1250), true));
+    for n in [64usize, 1000, 4096] { v.push(("closed star ring (inexact coordinates)", star_ring(n), false)); }
+    v
+}
+fn target_edges(n_edges: usize) -> Vec<usize> {
+    if n_edges <= 300 { return (0..n_edges).collect(); }
+    let mut t: Vec<usize> = vec![];
+    for i in 0..10 { t.push(i); t.push(n_edges - 1 - i); }
+    for c in [16usize, 64, 256, 1024, 4096] { for off in 0..5 { let i = c + off; if i >= 2 && i - 2 < n_edges { t.push(i - 2); } } }
+    let step = n_edges / 37 + 1;
+    let mut i = 0; while i < n_edges { t.push(i); i += step; }
+    t.sort(); t.dedup();
+    t
+}
+const D18: f64 = 3.814697265625e-6; // 2^-18
+const D34: f64 = 5.820766091346741e-11; // 2^-34
+// (49, 1): 49 * (1/49) rounds below 1, so the two slab parameters of a box corner on the line differ by an ulp of the parameter
+const DIRS: [(f64, f64); 6] = [(1.0, 0.25), (-0.5, 1.0), (3.0, 1.0), (-5.0, 3.0), (49.0, 1.0), (-49.0, 1.0)];
+fn snap(x: f64) -> f64 { (x * 65536.0).round() / 65536.0 }
+
+/// targeted lines through edge `i`: fractions of the edge (interior, just inside each end, the start vertex itself, and for
+/// the free ends just outside / the end vertex), directions, origins
+fn targeted_lines(v: &[Point2], i: usize, exact: bool, rich: bool) -> Vec<(Point2, Vector2, f64)> {
+    let n_edges = v.len() - 1;
+    let (a, b) = (v[i], v[i + 1]);
+    let mut fr: Vec<f64> = vec![0.375];
+    if exact { fr.push(0.0); }
+    if rich || i == 0 || i + 1 == n_edges { fr.extend_from_slice(&[D18, D34, 1.0 - D18, 1.0 - D34]); }
+    if i == 0 { fr.extend_from_slice(&[-D18, -D34]); }
+    if i + 1 == n_edges { fr.extend_from_slice(&[1.0 + D18, 1.0 + D34]); if exact { fr.push(1.0); } }
+    let mut out = vec![];
+    for (fi, f) in fr.iter().enumerate() {
+        let mut m = if *f == 0.0 { a } else if *f == 1.0 { b } else { p(a.x + (b.x - a.x) * f, a.y + (b.y - a.y) * f) };
+        if !exact { m = p(snap(m.x), snap(m.y)); }
+        for (di, (dx, dy)) in DIRS.iter().enumerate() {
+            if !rich && (di + i + fi) % 3 != 0 { continue; }
+            for (ki, k) in [0.0, 4.0, -8.0, 1048576.0, -68719476736.0, 12345678901.0].iter().enumerate() {
+                if !rich && ki >= 1 && (ki + i + di) % 5 != 0 { continue; }
+                for sense in [1.0, -1.0] { out.push((m, Vector2::new(sense * dx, sense * dy), *k)); }
+            }
+        }
+    }
+    out
+}
+/// lines that cross many edges at once: through points of the first / middle / last edge along the axes (signed zeros
+/// included) and from one such point to the next
+fn sweep_lines(v: &[Point2], exact: bool) -> Vec<(Point2, Vector2, f64)> {
+    let n_edges = v.len() - 1;
+    let mut ms: Vec<Point2> = vec![];
+    for i in [0, n_edges / 3, n_edges / 2, n_edges - 1] {
+        let (a, b) = (v[i], v[i + 1]);
+        let m = p(a.x + (b.x - a.x) * 0.375, a.y + (b.y - a.y) * 0.375);
+        ms.push(if exact { m } else { p(snap(m.x), snap(m.y)) });
+    }
+    let mut out = vec![];
+    for (j, m) in ms.iter().enumerate() {
+        let mut ds = vec![Vector2::new(1.0, 0.0), Vector2::new(0.0, 1.0), Vector2::new(-1.0, -0.0), Vector2::new(0.0, -0.5), Vector2::new(-0.0, 4.0), Vector2::new(0.001953125, 0.0)];
+        let o = ms[(j + 1) % ms.len()];
+        if o != *m { ds.push(o - *m); ds.push(*m - o); }
+        for d in ds { for k in [0.0, -8.0, 1048576.0] { out.push((*m, d, k)); } }
+    }
+    out
+}
+fn sizes_and_layouts(r: &mut Report) {
+    for (name, pts, exact) in sized_polylines() {
+        let n_edges = pts.len() - 1;
+        let line = Polyline::new(pts.clone(), None);
+        let curve = Curve2::from_points(&pts, 1e-6, false).ok().filter(|c| c.points() == &pts[..]);
+        let rich = n_edges <= 70;
+        let mut judged_total = 0usize;
+        for i in target_edges(n_edges) {
+            let mut judged = 0usize;
+            for (m, d, k) in targeted_lines(&pts, i, exact, rich) {
+                if check_ref_line(r, name, &pts, &line, curve.as_ref(), &m, &d, k, exact, exact) { judged += 1; }
+            }
+            judged_total += judged;
+            r.check(judged > 0, "harness: at least one line through every targeted edge is inside the judged input space", || format!("{} with {} edges, edge {}", name, n_edges, i));
+        }
+        for (m, d, k) in sweep_lines(&pts, exact) {
+            if check_ref_line(r, name, &pts, &line, curve.as_ref(), &m, &d, k, exact, exact) { judged_total += 1; }
+        }
+        r.check(judged_total >= 10, "harness: the sized family judges lines on every polyline", || format!("{} with {} edges: {} lines judged", name, n_edges, judged_total));
+    }
+}
+
+// ---------------------------------------------------------------- F2: magnitudes (offsets, scales, direction lengths, far origins, signed zeros)
+fn magnitude_shapes() -> Vec<(&'static str, Vec<Point2>)> {
+    let mut h = hook_last_extreme();
+    vec![
+        ("one edge", vec![p(0.0, 0.0), p(3.0, 2.0)]),
+        ("two edges", vec![p(0.0, 0.0), p(3.0, 2.0), p(4.0, -3.0)]),
+        ("zig-zag", zigzag(9, 2.0, 1.0)),
+        ("comb", comb(2)),
+        ("closed octagon", octagon((0.0, 0.0))),
+        ("closed star", star()),
+        ("spiral", spiral(2, false)),
+        ("open, end vertex extreme", h.remove(0)),
+        ("closed rectangle", rect_closed(5, 3)),
+        ("closed diamond", diamond(4)),
+        ("U shape", u_shape(3)),
+    ]
+}
+fn magnitudes(r: &mut Report) {
+    let offsets = [(0.0, 0.0), (1000.0, -3000.0), (100000.5, 250000.0), (-1.0e8, 1.0e8), (123456789.0, -987654321.0)];
+    let scales = [1.0, 0.0009765625, 9.5367431640625e-7, 7.450580596923828e-9]; // 1, 2^-10, 2^-20, 2^-27
+    let mut combo = 0usize;
+    for (name, base) in magnitude_shapes() {
+        let base_rays = rays_for(&base);
+        for (ox, oy) in offsets { for s in scales {
+            let tr = |q: &Point2| p(ox + s * q.x, oy + s * q.y);
+            let back_ok = |q: &Point2, t: &Point2| (t.x - ox) / s == q.x && (t.y - oy) / s == q.y;
+            let pts: Vec<Point2> = base.iter().map(|q| tr(q)).collect();
+            // the transformed polyline is the exact image of the base one (else this offset / scale pair is skipped)
+            if !base.iter().zip(pts.iter()).all(|(q, t)| back_ok(q, t)) { continue; }
+            let line = Polyline::new(pts.clone(), None);
+            let curve = Curve2::from_points(&pts, 1e-3 * s, false).ok().filter(|c| c.points() == &pts[..]);
+            let mut gs = vec![s * 0.0009765625, s, s * 1024.0, 1.0, 0.0009765625, 1024.0];
+            gs.sort_by(|a, b| a.partial_cmp(b).unwrap()); gs.dedup();
+            let mut judged = 0usize;
+            for g in gs.iter() {
+                combo += 1;
+                // targeted lines through every edge (vertex ties, just inside / outside the ends)
+                for i in 0..pts.len() - 1 {
+                    for (li, (m, d, k)) in targeted_lines(&pts, i, true, true).into_iter().enumerate() {
+                        if (li + combo) % 2 != 0 { continue; }
+                        if check_ref_line(r, name, &pts, &line, curve.as_ref(), &m, &(d * *g), k, true, false) { judged += 1; }
+                    }
+                }
+                // the generic lines of the base polyline (axis-parallel through every vertex coordinate and the box bounds, oblique)
+                for (li, ray) in base_rays.iter().enumerate() {
+                    if (li + combo) % 3 != 0 { continue; }
+                    let m = tr(&ray.origin);
+                    if !back_ok(&ray.origin, &m) { continue; }
+                    let mut ds = vec![ray.dir * *g];
+                    // signed zeros in the direction
+                    if ray.dir.y == 0.0 { ds.push(Vector2::new(ray.dir.x * *g, -0.0)); }
+                    if ray.dir.x == 0.0 { ds.push(Vector2::new(-0.0, ray.dir.y * *g)); }
+                    for d in ds {
+                        let k = [0.0, 0.0, 1048576.0, 0.0, -68719476736.0, 0.0, 32.0][(li / 3 + combo) % 7];
+                        if check_ref_line(r, name, &pts, &line, curve.as_ref(), &m, &d, k, true, false) { judged += 1; }
+                    }
+                }
+            }
+            r.check(judged >= if s < 1e-8 { 1 } else { 40 }, "harness: every exact offset / scale pair of the magnitude family judges lines", || format!("{} offset ({:?}, {:?}) scale {:?}: {} lines judged", name, ox, oy, s, judged));
+        } }
+    }
+}
+
+// ---------------------------------------------------------------- F5 / F6: zero-length edges; curves as built by Curve2 (forced closure, closure within tolerance, duplicates removed, moved, reversed, cloned)
+fn all_edge_lines(r: &mut Report, name: &str, v: &[Point2], line: &Polyline, curve: Option<&Curve2>) -> usize {
+    let mut judged = 0usize;
+    for i in 0..v.len() - 1 {
+        for (m, d, k) in targeted_lines(v, i, true, true) {
+            if k.abs() > 8.0 { continue; }
+            if check_ref_line(r, name, v, line, curve, &m, &d, k, true, false) { judged += 1; }
+        }
+    }
+    judged
+}
+fn built_curves(r: &mut Report) {
+    // zero-length edges (Polyline only: Curve2 removes them)
+    for (name, base) in [("zig-zag with doubled vertices", zigzag(9, 2.0, 1.0)), ("closed star with doubled vertices", star()), ("two edges, doubled middle vertex", vec![p(0.0, 0.0), p(3.0, 2.0), p(4.0, -3.0)])] {
+        let mut pts: Vec<Point2> = vec![];
+        for (i, q) in base.iter().enumerate() { pts.push(*q); if i % 3 == 0 || i + 1 == base.len() { pts.push(*q); } }
+        let line = Polyline::new(pts.clone(), None);
+        let j = all_edge_lines(r, name, &pts, &line, None);
+        r.check(j >= 20, "harness: the zero-length-edge family judges lines", || format!("{}: {}", name, j));
+    }
+    let opens: Vec<(&'static str, Vec<Point2>)> = vec![("zig-zag", zigzag(9, 2.0, 1.0)), ("comb", comb(2)), ("spiral", spiral(2, false)), ("U shape", u_shape(3)), ("hook", hook_last_extreme().remove(4)), ("asymmetric zig-zag", zigzag_asym(6))];
+    for (name, base) in opens.iter() {
+        let mut variants: Vec<(String, Curve2)> = vec![];
+        if let Ok(c) = Curve2::from_points(base, 1e-6, true) {
+            variants.push((format!("{}: Curve2::from_points(.., force_closed = true)", name), c.clone()));
+            variants.push((format!("{}: force-closed curve, cloned", name), c.clone()));
+            variants.push((format!("{}: force-closed curve, transformed_by(translation (1024, -512))", name), c.transformed_by(&crate::Iso2::translation(1024.0, -512.0))));
+            variants.push((format!("{}: force-closed curve, reversed", name), c.reversed()));
+        }
+        // closed within the tolerance: the last point is 2^-21 away from the first, no closing edge
+        let mut near = base.clone();
+        near.push(p(base[0].x + 4.76837158203125e-7, base[0].y));
+        if let Ok(c) = Curve2::from_points(&near, 1e-6, false) { variants.push((format!("{}: last point within the tolerance of the first", name), c)); }
+        // duplicates and near-duplicates in the input
+        let mut dup: Vec<Point2> = vec![];
+        for (i, q) in base.iter().enumerate() { dup.push(*q); if i % 3 == 1 { dup.push(*q); } if i % 4 == 2 { dup.push(p(q.x + 2.384185791015625e-7, q.y)); } }
+        if let Ok(c) = Curve2::from_points(&dup, 1e-6, false) { variants.push((format!("{}: duplicates and near-duplicates in the input", name), c)); }
+        if let Ok(c) = Curve2::from_points(&dup, 1e-6, true) { variants.push((format!("{}: duplicates in the input, force_closed", name), c)); }
+        r.check(variants.len() == 7, "harness: Curve2 builds all variants of the open polylines", || format!("{}: {}", name, variants.len()));
+        for (vn, c) in variants.iter() {
+            // the oracle works on the vertex list the curve reports; edge numbers are those of the curve
+            let v: Vec<Point2> = c.points().to_vec();
+            let line = Polyline::new(v.clone(), None);
+            let j = all_edge_lines(r, vn, &v, &line, Some(c));
+            r.check(j >= 20, "harness: the built-curve family judges lines", || format!("{}: {}", vn, j));
+        }
+    }
+}
+
 pub fn run() -> Option<Report> {
-    let mut r = Report::new("43 polylines with 5..=40 edges on integer grids (zig-zags, combs, staircases, U shapes, closed rectangles / diamonds / octagons / star, rectangular spirals, open chains whose end vertex is the unique extreme) x per polyline: axis-parallel lines through every vertex coordinate, the box bounds, one unit outside and fractional offsets (5 origins before / inside / behind / on the box, 4 signed speeds) and oblique lines of 13 dyadic slopes (5 of them nearly parallel to edges, direction determinants 2^-10 .. 2^-16) through every third vertex, the last vertex and 4 off-grid anchors (origin on the anchor and 16 steps before / behind); surface points = the same lines with a unit normal; lines whose distinct crossings are closer than 1e-6 are excluded; NEAR-PARALLEL: 648 closed pentagons (3 vertex positions x 6 dyadic line directions x nearly parallel edge of length 1.3 / 4.2 / 9.7 at 1e-3, 1e-4, 1e-5 rad, on either side, vertex = end or start of that edge) x 18 lines EXACTLY through the vertex (origin 0, 2, 8, 32, -4, -16 steps before it, speeds 1, -1, 0.5); REGULAR POLYGONS: 5,6,7,8,9,12,16,24-gons of radius 1, 2.5, 10 at 2 centres x every line through two non-adjacent vertices (inexact coordinates); NEARLY PARALLEL, ANY MAGNITUDE: 7-edge polyline with an edge of length 0.01, 0.1, 1, 10, 200 crossed at 0.25 / 0.5 / 0.8125 of its length by a line at 1e-6, 1e-8, 1e-10 rad with |dir| = 1e-3, 1, 1e3 (combinations whose direction determinant len*|dir|*angle is >= 4e-12), 8 axis symmetries x 2 translations x both vertex orders x origins 0, 2, -4, 32 steps before the crossing x both senses; crossed edges decided by orientation signs relative to the known crossing point; THIN FEATURE: a slot of width 0.002, 0.01, 0.03 crossed at slopes 1/8, -1/2, 2 by lines with |dir| ~ 1e-3, 1, 1e3, 2e3 whose two wall crossings are >= 1e-6 apart in parameter (8 symmetries, both vertex orders, 3 origins, both senses)");
+    let mut r = Report::new("43 polylines with 5..=40 edges on integer grids (zig-zags, combs, staircases, U shapes, closed rectangles / diamonds / octagons / star, rectangular spirals, open chains whose end vertex is the unique extreme) x per polyline: axis-parallel lines through every vertex coordinate, the box bounds, one unit outside and fractional offsets (5 origins before / inside / behind / on the box, 4 signed speeds) and oblique lines of 13 dyadic slopes (5 of them nearly parallel to edges, direction determinants 2^-10 .. 2^-16) through every third vertex, the last vertex and 4 off-grid anchors (origin on the anchor and 16 steps before / behind); surface points = the same lines with a unit normal; lines whose distinct crossings are closer than 1e-6 are excluded; NEAR-PARALLEL: 648 closed pentagons (3 vertex positions x 6 dyadic line directions x nearly parallel edge of length 1.3 / 4.2 / 9.7 at 1e-3, 1e-4, 1e-5 rad, on either side, vertex = end or start of that edge) x 18 lines EXACTLY through the vertex (origin 0, 2, 8, 32, -4, -16 steps before it, speeds 1, -1, 0.5); REGULAR POLYGONS: 5,6,7,8,9,12,16,24-gons of radius 1, 2.5, 10 at 2 centres x every line through two non-adjacent vertices (inexact coordinates); NEARLY PARALLEL, ANY MAGNITUDE: 7-edge polyline with an edge of length 0.01, 0.1, 1, 10, 200 crossed at 0.25 / 0.5 / 0.8125 of its length by a line at 1e-6, 1e-8, 1e-10 rad with |dir| = 1e-3, 1, 1e3 (combinations whose direction determinant len*|dir|*angle is >= 4e-12), 8 axis symmetries x 2 translations x both vertex orders x origins 0, 2, -4, 32 steps before the crossing x both senses; crossed edges decided by orientation signs relative to the known crossing point; THIN FEATURE: a slot of width 0.002, 0.01, 0.03 crossed at slopes 1/8, -1/2, 2 by lines with |dir| ~ 1e-3, 1, 1e3, 2e3 whose two wall crossings are >= 1e-6 apart in parameter (8 symmetries, both vertex orders, 3 origins, both senses); WAVE 5, orientation-sign oracle, lines (m, d, k) through a known point m with exact origin m - k d: SIZES 1, 2, 3, 4, 41, 63, 64, 65, 100, 255, 256, 257, 1000, 1024, 4097, 5000 edges (thorough tier: also 127..129, 1023, 1025, 2048, 4095, 4096) in 8 layouts (zig-zag, asymmetric zig-zag, comb, rectangular spiral out / in, round spiral and closed star ring with inexact coordinates, nearly straight run, closed rectangle), targeted lines through every edge (<= 300 edges) else the first / last 10 edges, the edges around 16, 64, 256, 1024, 4096 and every n/37-th, at edge fractions 0.375, 0, 2^-18, 2^-34, 1 - 2^-18, 1 - 2^-34 and -+2^-18, -+2^-34 beyond / exactly at the free ends, directions (1, 0.25), (-0.5, 1), (3, 1), (-5, 3), (+-49, 1) in both senses, origins 0, 4, -8, 2^20, -2^36, 12345678901 steps from m (sampled on the long polylines), sweeps through points of 4 edges along the signed axes (-0.0 components included) and from one to the next (a single query crosses up to 5000 edges); MAGNITUDES: 11 shapes of 1..32 edges x offsets (0, 0), (1000, -3000), (100000.5, 250000), (-1e8, 1e8), (123456789, -987654321) x scales 1, 2^-10, 2^-20, 2^-27 (exact images only) x direction factors scale * 2^-10, scale, scale * 2^10, 2^-10, 1, 2^10 x (every 2nd targeted line, every 3rd generic line of the base shape incl. axis-parallel lines on the box bounds with +-0.0 components, origins 0, 32, 2^20, -2^36 steps away); BUILT CURVES: 6 open shapes as Curve2 builds them with force_closed, last point within the tolerance of the first, duplicates / near-duplicates in the input, cloned, translated by (1024, -512), reversed, plus polylines with zero-length edges, targeted lines through every edge (the closing edge included); every query is asked twice; a line is judged when every vertex is farther from it than 2^-40 of the edge's orientation span + 1e-14 |d| (distance to the origin) or EXACTLY on it with an exact per-edge formula (error-free transformations), crossed edges make a sine >= 1e-4 and a direction determinant >= 4e-12 with it, and distinct crossings are >= 1e-6 apart in parameter");
     for (name, pts) in polylines() {
         let line = Polyline::new(pts.clone(), None);
         let curve = Curve2::from_points(&pts, 1e-6, false).ok();
@@ -519,5 +991,8 @@ pub fn run() -> Option<Report> {
     regular_polygon_chords(&mut r);
     near_parallel_scaled(&mut r);
     thin_feature_scaled_lines(&mut r);
+    sizes_and_layouts(&mut r);
+    magnitudes(&mut r);
+    built_curves(&mut r);
     Some(r)
 }
